@@ -1026,23 +1026,23 @@ def abs_square_operand(t):
         return inner if inner is not None and _is_conj_product(strip_views(t.args[0])) else None
     if is_call_to(t, 'numpy.real') and call_arg(t, 0) is not None:
         return abs_square_operand(call_arg(t, 0)) if _is_conj_product(strip_views(call_arg(t, 0))) else None
-    if t.op == 'binop' and t.args[0] == 'Pow' and const_val(t.args[2]) == 2:
+    if t.op in ('binop', 'iop') and t.args[0] == 'Pow' and const_val(t.args[2]) == 2:
         b = strip_views(t.args[1])
         return strip_views(call_arg(b, 0)) if is_call_to(b, 'numpy.abs', 'builtin.abs') else b
-    if t.op == 'binop' and t.args[0] == 'Mult':
+    if t.op in ('binop', 'iop') and t.args[0] == 'Mult':
         a, b = strip_views(t.args[1]), strip_views(t.args[2])
         if _is_conj_product(t):
             return b if is_conj_of(a, b) else a
         if a is b or struct_eq(a, b):
             return strip_views(call_arg(a, 0)) if is_call_to(a, 'numpy.abs', 'builtin.abs') else a
-    if t.op == 'binop' and t.args[0] == 'Add':
+    if t.op in ('binop', 'iop') and t.args[0] == 'Add':
         parts = []
         for side in (t.args[1], t.args[2]):
             sd = strip_views(side)
             sq = None
-            if sd.op == 'binop' and sd.args[0] == 'Pow' and const_val(sd.args[2]) == 2:
+            if sd.op in ('binop', 'iop') and sd.args[0] == 'Pow' and const_val(sd.args[2]) == 2:
                 sq = strip_views(sd.args[1])
-            elif sd.op == 'binop' and sd.args[0] == 'Mult' and (strip_views(sd.args[1]) is strip_views(sd.args[2]) or struct_eq(strip_views(sd.args[1]), strip_views(sd.args[2]))):
+            elif sd.op in ('binop', 'iop') and sd.args[0] == 'Mult' and (strip_views(sd.args[1]) is strip_views(sd.args[2]) or struct_eq(strip_views(sd.args[1]), strip_views(sd.args[2]))):
                 sq = strip_views(sd.args[1])          # re * re
             if sq is not None and sq.op == 'attr' and sq.args[1] in ('real', 'imag'):
                 parts.append((sq.args[1], strip_views(sq.args[0])))
@@ -1131,6 +1131,9 @@ def indexed_values(graph):
         if e.kind == 'store':
             idx = e.term.args[1]
             items = list(idx.args[0]) if idx.op == 'tuple' else [idx]
+            # X[i, :] = v(i): trailing full slices are axes the value is vectorised over - the running index is (i,)
+            while len(items) > 1 and items[-1].op == 'slice' and all(const_val(y) is None for y in items[-1].args):
+                items.pop()
             roles = [loop_role(x) for x in items]
             # `row[d] = v` with `for k, row in enumerate(X)` is X[k, d] = v: the row view contributes its own running index
             lead = []
